@@ -22,6 +22,17 @@ let () =
          let ts = List.map tk toks in
          let (e, x) = lzss_enc_expand (n_of_int (int_of_string mode)) ts in
          Printf.printf "%s %s %b\n" (if e = [] then "-" else hex_of_bytes e) (if x = [] then "-" else hex_of_bytes x) (List.for_all wf_tok ts)
+     | "mszip", [_repair; reqs; hex] ->
+         (* one request only in the current port *)
+         let (st, out) = mszip_ideal (bytes_of_hex hex) (n_of_int (List.hd (ints reqs))) in
+         Printf.printf "%d %s\n" (int_of_n st) (hex_of_bytes out)
+     | "lzx", [wb; ri; ol; dl; rf; rq; hex] ->
+         let (sts, out) = lzx_run (n_of_int (int_of_string wb)) (n_of_int (int_of_string ri)) (n_of_int (int_of_string ol)) (dl = "1")
+                            (bytes_of_hex rf) (bytes_of_hex hex) (List.map n_of_int (ints rq)) in
+         Printf.printf "%s %s\n" (String.concat "," (List.map (fun x -> string_of_int (int_of_n x)) sts)) (hex_of_bytes out)
+     | "qtm", [wb; rq; hex] ->
+         let (sts, out) = qtm_run (n_of_int (int_of_string wb)) (bytes_of_hex hex) (List.map n_of_int (ints rq)) in
+         Printf.printf "%s %s\n" (String.concat "," (List.map (fun x -> string_of_int (int_of_n x)) sts)) (hex_of_bytes out)
      | "lzss", [mode; hex] -> Printf.printf "0 %s\n" (hex_of_bytes (lzss_spec (n_of_int (int_of_string mode)) (bytes_of_hex hex)))
      | _ -> print_endline "?");
     flush stdout
